@@ -45,10 +45,19 @@ Definition seq_bad (h : hist) (pn : Z) : bool := negb (hHighest h =? -1) && negb
 Definition h_seq (h : hist) (pn : Z) : hist :=
   mkH (hPackets h) (hProbes h) (hSkipped h) (hNumOut h) (if isnil (hPackets h) then pn else hFirst h) pn.
 
+(* garbage collection of old skipped numbers: drop from the front while at least maxSkippedPackets are
+   remembered and the oldest one is below the lowest tracked packet number (or nothing is tracked) *)
+Fixpoint gc_skipped (sk : list Z) (empty : bool) (first : Z) : list Z :=
+  match sk with
+  | [] => []
+  | p :: r => if (zlen (p :: r) >=? sph_maxSkippedPackets) && (empty || (p <? first))
+              then gc_skipped r empty first else p :: r
+  end.
+
 Definition h_skipped (h0 : hist) (pn : Z) : hist :=
   let h := h_seq h0 pn in
   let pk := if isnil (hPackets h) then [] else hPackets h ++ [None] in
-  let sk := if zlen (hSkipped h) =? sph_maxSkippedPackets then tl (hSkipped h) else hSkipped h in
+  let sk := gc_skipped (hSkipped h) (isnil (hPackets h)) (hFirst h) in
   mkH pk (hProbes h) (sk ++ [pn]) (hNumOut h) (hFirst h) (hHighest h).
 
 Definition h_sent (h0 : hist) (pn : Z) (p : packet) : hist :=
@@ -212,6 +221,7 @@ Record state := mkSt {
   sPtoC : Z; sPtoM : Z; sProbes : Z;
   sAlarm : alarmT;
   sClient : bool;
+  sIPN : Z;                       (* initialPN: first packet number of the Initial space *)
   sPanic : Z;
   sCbs : list (Z * bool);         (* newest first *)
   sEvs : list event }.            (* newest first *)
@@ -219,37 +229,37 @@ Record state := mkSt {
 (* setters *)
 Definition st_spaces (st : state) (i h : option space) (a : space) : state :=
   mkSt i h a (sLost st) (sLAT st) (sPCAV st) (sRecv st) (sSent st) (sPAV st) (sConf st) (sBif st)
-       (sPtoC st) (sPtoM st) (sProbes st) (sAlarm st) (sClient st) (sPanic st) (sCbs st) (sEvs st).
+       (sPtoC st) (sPtoM st) (sProbes st) (sAlarm st) (sClient st) (sIPN st) (sPanic st) (sCbs st) (sEvs st).
 Definition st_lost (st : state) (l : list (Z * Z)) : state :=
   mkSt (sInit st) (sHs st) (sApp st) l (sLAT st) (sPCAV st) (sRecv st) (sSent st) (sPAV st) (sConf st) (sBif st)
-       (sPtoC st) (sPtoM st) (sProbes st) (sAlarm st) (sClient st) (sPanic st) (sCbs st) (sEvs st).
+       (sPtoC st) (sPtoM st) (sProbes st) (sAlarm st) (sClient st) (sIPN st) (sPanic st) (sCbs st) (sEvs st).
 Definition st_lat (st : state) (v : Z) : state :=
   mkSt (sInit st) (sHs st) (sApp st) (sLost st) v (sPCAV st) (sRecv st) (sSent st) (sPAV st) (sConf st) (sBif st)
-       (sPtoC st) (sPtoM st) (sProbes st) (sAlarm st) (sClient st) (sPanic st) (sCbs st) (sEvs st).
+       (sPtoC st) (sPtoM st) (sProbes st) (sAlarm st) (sClient st) (sIPN st) (sPanic st) (sCbs st) (sEvs st).
 Definition st_flags (st : state) (pcav pav conf : bool) : state :=
   mkSt (sInit st) (sHs st) (sApp st) (sLost st) (sLAT st) pcav (sRecv st) (sSent st) pav conf (sBif st)
-       (sPtoC st) (sPtoM st) (sProbes st) (sAlarm st) (sClient st) (sPanic st) (sCbs st) (sEvs st).
+       (sPtoC st) (sPtoM st) (sProbes st) (sAlarm st) (sClient st) (sIPN st) (sPanic st) (sCbs st) (sEvs st).
 Definition st_bytes (st : state) (r s : Z) : state :=
   mkSt (sInit st) (sHs st) (sApp st) (sLost st) (sLAT st) (sPCAV st) r s (sPAV st) (sConf st) (sBif st)
-       (sPtoC st) (sPtoM st) (sProbes st) (sAlarm st) (sClient st) (sPanic st) (sCbs st) (sEvs st).
+       (sPtoC st) (sPtoM st) (sProbes st) (sAlarm st) (sClient st) (sIPN st) (sPanic st) (sCbs st) (sEvs st).
 Definition st_bif (st : state) (v : Z) : state :=
   mkSt (sInit st) (sHs st) (sApp st) (sLost st) (sLAT st) (sPCAV st) (sRecv st) (sSent st) (sPAV st) (sConf st) v
-       (sPtoC st) (sPtoM st) (sProbes st) (sAlarm st) (sClient st) (sPanic st) (sCbs st) (sEvs st).
+       (sPtoC st) (sPtoM st) (sProbes st) (sAlarm st) (sClient st) (sIPN st) (sPanic st) (sCbs st) (sEvs st).
 Definition st_pto (st : state) (c m n : Z) : state :=
   mkSt (sInit st) (sHs st) (sApp st) (sLost st) (sLAT st) (sPCAV st) (sRecv st) (sSent st) (sPAV st) (sConf st) (sBif st)
-       c m n (sAlarm st) (sClient st) (sPanic st) (sCbs st) (sEvs st).
+       c m n (sAlarm st) (sClient st) (sIPN st) (sPanic st) (sCbs st) (sEvs st).
 Definition st_alarm (st : state) (a : alarmT) : state :=
   mkSt (sInit st) (sHs st) (sApp st) (sLost st) (sLAT st) (sPCAV st) (sRecv st) (sSent st) (sPAV st) (sConf st) (sBif st)
-       (sPtoC st) (sPtoM st) (sProbes st) a (sClient st) (sPanic st) (sCbs st) (sEvs st).
+       (sPtoC st) (sPtoM st) (sProbes st) a (sClient st) (sIPN st) (sPanic st) (sCbs st) (sEvs st).
 Definition panic (code : Z) (st : state) : state :=
   mkSt (sInit st) (sHs st) (sApp st) (sLost st) (sLAT st) (sPCAV st) (sRecv st) (sSent st) (sPAV st) (sConf st) (sBif st)
-       (sPtoC st) (sPtoM st) (sProbes st) (sAlarm st) (sClient st) (if sPanic st =? 0 then code else sPanic st) (sCbs st) (sEvs st).
+       (sPtoC st) (sPtoM st) (sProbes st) (sAlarm st) (sClient st) (sIPN st) (if sPanic st =? 0 then code else sPanic st) (sCbs st) (sEvs st).
 Definition st_cbs (st : state) (c : list (Z * bool)) : state :=
   mkSt (sInit st) (sHs st) (sApp st) (sLost st) (sLAT st) (sPCAV st) (sRecv st) (sSent st) (sPAV st) (sConf st) (sBif st)
-       (sPtoC st) (sPtoM st) (sProbes st) (sAlarm st) (sClient st) (sPanic st) c (sEvs st).
+       (sPtoC st) (sPtoM st) (sProbes st) (sAlarm st) (sClient st) (sIPN st) (sPanic st) c (sEvs st).
 Definition emit (e : event) (st : state) : state :=
   mkSt (sInit st) (sHs st) (sApp st) (sLost st) (sLAT st) (sPCAV st) (sRecv st) (sSent st) (sPAV st) (sConf st) (sBif st)
-       (sPtoC st) (sPtoM st) (sProbes st) (sAlarm st) (sClient st) (sPanic st) (sCbs st) (e :: sEvs st).
+       (sPtoC st) (sPtoM st) (sProbes st) (sAlarm st) (sClient st) (sIPN st) (sPanic st) (sCbs st) (e :: sEvs st).
 
 (* callbacks: one log entry per frame, in call order (newest first in the log) *)
 Definition callbacks (acked : bool) (ids : list Z) (st : state) : state :=
@@ -527,13 +537,13 @@ Definition acked_one (prior : Z) (acc : state * bool) (x : Z * packet) : state *
   let st := if pIncl p then emit (EAcked pn (pLen p) prior) st else st in
   (rm_bif st p, a1 || (pLvl p =? sph_Enc1RTT)).
 
-(* error classes: 0 nil, 1 "ACK for an unsent packet" (PROTOCOL_VIOLATION), 2 "ACK for skipped packet number" (PROTOCOL_VIOLATION) *)
+(* error classes: 0 nil, 1 "ACK for an unsent packet" (PROTOCOL_VIOLATION; above the largest sent or below the first Initial number), 2 "ACK for skipped packet number" (PROTOCOL_VIOLATION) *)
 Definition receivedAck (st : state) (o : oracle) (rs : list range) (l now : Z) : state * bool * Z :=
   match get_space st l with
   | None => (panic 6 st, false, 0)
   | Some s0 =>
     let largest := ack_largest rs in
-    if largest >? spLargestSent s0 then (st, false, 1)
+    if (largest >? spLargestSent s0) || ((l =? sph_EncInitial) && (ack_lowest rs <? sIPN st)) then (st, false, 1)
     else
       let st := if sClient st && negb (sPCAV st) && ((l =? sph_EncHandshake) || (l =? sph_Enc1RTT))
                 then setTimer (st_flags st true (sPAV st) (sConf st)) o now else st in
@@ -776,6 +786,6 @@ Definition step (st : state) (oo : op * oracle) : state * Z :=
 Definition init (client addrValidated : bool) (initialPN period maxPeriod rnd0 : Z) : state :=
   mkSt (Some (newSpace (g_sequential initialPN))) (Some (newSpace (g_sequential 0)))
        (newSpace (g_skipping 0 period maxPeriod rnd0))
-       [] 0 (negb client) 0 0 (client || addrValidated) false 0 0 sph_SendNone 0 noAlarm client 0 [] [].
+       [] 0 (negb client) 0 0 (client || addrValidated) false 0 0 sph_SendNone 0 noAlarm client initialPN 0 [] [].
 
 Definition run (st : state) (ops : list (op * oracle)) : state := fold_left (fun s o => fst (step s o)) ops st.
